@@ -77,13 +77,14 @@ def build_case(shard, vi, seed, ctor="Sigma", prep="fresh"):
         p0 = objs.mk_pdf("GaussianPDF", Sx[:1], mx[:1])
         cond.affine_marginal_transformation(p0, **kw)
         cond.affine_joint_transformation(p0, **kw)
-        cond.set_control_variable(kw["u"])
+        objs.exercise_cond(cond, kw)
         cond.update_Sigma(J(Sy[:1]))
         p_x = objs.mk_pdf("GaussianPDF", Sx, mx)
         return cond, kw, p_x, (Me, be, np.tile(Sy[:1], (len(Me), 1, 1)), mx, Sx)
     if prep == "updated" and kind != "nncontrol":
         # the conditional was built with another noise covariance and then updated in place
         cond, kw, (Me, be, Sye) = objs.mk_cond(kind, M, b, Sy * 3.0 + (0 if diag else 0.0), ctor=ctor)
+        objs.exercise_cond(cond)
         cond.update_Sigma(J(Sy))
         p_x = objs.mk_pdf("GaussianPDF", Sx, mx)
         p_x.integrate("xx'")  # and the prior has been queried before
